@@ -26,7 +26,11 @@
 #include "pfaffian.hpp"
 
 template <typename TScalar>
-TScalar pfaffian_cpp(Matrix<TScalar> &matrix_in) {
+TScalar pfaffian_cpp(Matrix<TScalar> &matrix_arg) {
+    // NOTE: The pivoting and the elimination below work in place. The input may share
+    // its memory with the caller's array, so they are done on a private copy.
+    Matrix<TScalar> matrix_in = matrix_arg.copy();
+
     size_t n = matrix_in.cols;
     if(n == 0) return 1.0;
     if((n & 1) == 1) return 0;
